@@ -18,6 +18,8 @@ CLAIM = (
     "(9) Cursor.copy carries the mutable position state (error pointers are rendered from copies); (10) Renderer implements every node kind."
     " SKIPS: the loops of the functions in scope have no more `continue`, `break` or in-loop `return` statements than the reference "
     "read on the unchanged tree (baselines/skips.json): a new skip means elements that were handled are no longer handled."
+    " KEYED: a local mapping that is subscripted with the elements of a local list receives an entry for every element appended to that list "
+    "(otherwise the report that uses the mapping raises KeyError)."
 )
 NOTE = (
     "Trusted base: the cursor typestate transfer functions (try_literal/peek_literal/done semantics as documented on Cursor), the frozen "
@@ -71,6 +73,12 @@ def run(ctx) -> None:
         if _m.name.startswith("aas_core_codegen.parse.retree"):
             for _f in _m.functions.values():
                 _skips.check_skips(ctx, _f, "SKIPS", _base)
+    ctx.rule("KEYED", "a local mapping subscripted with elements of a local list has an entry for every appended element", floor=1)
+    from ..rules import keyed as _keyed
+    for _m in ctx.p.modules.values():
+        if _m.name.startswith("aas_core_codegen.parse.retree"):
+            for _f in _m.functions.values():
+                _keyed.check_keyed(ctx, _f, "KEYED")
 
 
 def _call_nodes(cfg, name: str):
